@@ -385,6 +385,42 @@ theorem kbp_twice (v : KView) (len : Rat) (hu : v.unit = 1) :
     (match v.kbp len with | .err .runtimeError => True | _ => False) := by
   unfold KView.kbp; simp [hu]
 
+/-! ## Downsampling with another reducer -/
+
+/-- With any reducer the result has `⌊P/pf⌋` rows; row `i` has one entry per full block of `tf` columns of the band
+    of source rows `i·pf … i·pf + pf − 1`, and entry `j` is the reducer applied to ALL pixels of the two-dimensional
+    block (rows of the band × columns `j·tf … j·tf + tf − 1`) — not a reduction of per-axis reductions. -/
+theorem down_with_entry (red : Red) (img : Img) (pf tf : Nat) (hpf : 0 < pf) :
+    (blockReduceWith red img pf tf).length = img.length / pf ∧
+    ∀ i (hi : i < (blockReduceWith red img pf tf).length),
+      let band := (img.drop (i * pf)).take pf
+      ((blockReduceWith red img pf tf)[i]).length = numCols band / tf ∧
+      ∀ j (hj : j < ((blockReduceWith red img pf tf)[i]).length),
+        (((blockReduceWith red img pf tf)[i])[j]).v =
+          red.apply ((band.flatMap fun r => (r.drop (j * tf)).take tf).map (·.v)) := by
+  constructor
+  · unfold blockReduceWith; simp [chunks_length pf hpf]
+  · intro i hi
+    have hi' : i < (chunks pf img).length := by unfold blockReduceWith at hi; simpa using hi
+    have hrow : (blockReduceWith red img pf tf)[i] =
+        (List.range (numCols ((img.drop (i * pf)).take pf) / tf)).map fun j =>
+          let b := block2d ((img.drop (i * pf)).take pf) tf j
+          (⟨red.apply (b.map (·.v)), minList (b.map (·.tmin)), maxList (b.map (·.tmax))⟩ : Pix) := by
+      have := chunks_getElem pf hpf img i hi'
+      simp only [blockReduceWith, List.getElem_map, this]
+    simp only
+    rw [hrow]
+    refine ⟨by simp, ?_⟩
+    intro j hj
+    simp only [List.getElem_map, List.getElem_range, block2d]
+
+/-- `np.ptp` over a block is not the `ptp` of per-axis `ptp`s: a 2×2 witness (the seeded change C06d-m1 computes
+    the right-hand side). -/
+example :
+    let img : Img := [[⟨1, 0, 0⟩, ⟨5, 0, 0⟩], [⟨2, 0, 0⟩, ⟨2, 0, 0⟩]]
+    values (blockReduceWith .ptp img 2 2) = [[4]] ∧
+    values (blockReduceWith .ptp (blockReduceWith .ptp img 2 1) 1 2) = [[2]] := by decide +kernel
+
 /-! ## Scans: frame indexing and pixel crops -/
 
 /-- An integer index selects the frame Python list indexing selects (negative indices wrap once,
